@@ -186,6 +186,31 @@ def run(E: Engine, rep: Report, tier: str) -> dict:
     sr = E.method(SEQ, "_set_register")
     rep.check("seq._register = reg" in norm(sr.node) and "seq._qids = qids" in norm(sr.node), "MAP", "Sequence._set_register|register-and-ids-updated", "the built sequence gets the concrete register and its ids", "_set_register no longer updates both the register and the qubit-id set of the built sequence", E.where(sr))
     rep.floor("MAP", 3)
+    # "all qubits" of a phase shift without explicit targets are the register's qubits (the phase bookkeeping of a
+    # mappable register still lists every reserved id after the register was resolved)
+    psf = E.method(SEQ, "_phase_shift")
+    cq = [l for l in S(E, psf, inline=False).calls("_check_qubits_give_ids") if l.fn == psf.short]
+    ok = bool(cq)
+    for l in cq:
+        stars = [a[1] for a in l.value[2] if a[0] == "star"]
+        alts = [leaf for st_ in stars for _c, leaf in __import__("pstatic.rules.symutil", fromlist=["branches"]).branches(st_)]
+        given = ("name", psf.node.args.vararg.arg) if psf.node.args.vararg is not None else None
+        ok = ok and bool(alts) and all(leaf == given or leaf == sym.Pattern("self._register.qubit_ids").term for leaf in alts) and any(leaf == sym.Pattern("self._register.qubit_ids").term for leaf in alts)
+    rep.check(ok, "FLOW", "Sequence._phase_shift|default-targets-are-the-register-qubits", "without explicit targets the shift applies to self._register.qubit_ids", "a phase shift without explicit targets no longer ranges over the register's qubits: after a mappable register was resolved to a subset of its ids, a bookkeeping table (e.g. _basis_ref) still lists unmapped ids and the built sequence is rejected while the direct construction succeeds", E.where(psf))
+    # Variable.__getitem__: a single index and a sequence of indices are bounded by the same predicate
+    vg = E.method("pulser.parametrized.variable.Variable", "__getitem__")
+    preds = []
+    for l in S(E, vg).logged("assign"):
+        if l.fn != vg.short or l.value is None or l.value == sym.NONE:
+            continue
+        subject = l.value
+        about = [x for x in sym.conj_of(l.cond) if mentions(x, "size") and sym.contains(x, subject) and not any(t[0] == "call" and t[1] == ("name", "isinstance") for t in sym.subterms(x))]
+        if not about:
+            continue
+        lits = frozenset(sym.subst(x, lambda t, s_=subject: ("name", "Q_k") if t == s_ else None) for x in about)
+        preds.append((subject, lits))
+    ok = len(preds) >= 2 and len({p for _s, p in preds}) == 1
+    rep.check(ok, "SIB", "Variable.__getitem__|same-bounds-for-int-and-sequence", "an integer key and every element of a sequence key are rejected by the same bounds predicate", f"Variable.__getitem__ bounds a single index and the elements of an index list differently: {[sorted(sym.show(x) for x in p) for _s, p in preds]} -- an item that the evaluated array accepts (e.g. [-size]) is refused for the variable, so the parametrized program cannot be written although the direct one is valid", E.where(vg))
     # ARGS: queries on a parametrized sequence read the stored (not yet executed) calls; they may index the positional
     # arguments only where the argument must be positional -- otherwise a call the direct construction accepts makes
     # the template raise IndexError
